@@ -42,6 +42,13 @@
  *                                  when the Box is swept, Box_Del deletes the target although it is reachable — reported as `I excluded`)
  *   newraw <id> <kind> <arg> <where>   exact: a container (A L T U E F) allocated with new_raw: not registered; the collector does not follow a
  *                                  path through it, and the oracle does not either (the chain must consist of registered objects)
+ *   element type X                 `new 3 A X -`, `new 4 T IX -`: Array / List of ProbeE, Table / Tree with ProbeE values — an embedded element type of the
+ *                                  harness that holds one plain pointer and whose destructor / Assign instance run a collection when armed (below)
+ *   arem <id> <idx>                rem(container, value of element idx): Array_Rem -> Array_Pop_At / List_Rem on the first equal element (ProbeE elements)
+ *   concat <dst> <src>             concat(dst, src) for A L of the same element type        ins <id> <idx> <tok>   push_at(id, tok, idx) for A L
+ *   xin <k> <tok>* | <op>          exact: <op> (pop arem aset push tset trem clear trunc assign concat) with an exact collection INSIDE its k-th ProbeE
+ *                                  destructor / Assign call: the container is in an intermediate state (see the section before do_mid)
+ *   cin <k> | <op>                 full: the same, the k-th call allocating until the threshold triggers the real GC_Mark / GC_Sweep
  *   collect                        full: GC_Mark + GC_Sweep
  *   churn <n>                      full: allocate n unreferenced objects (drives the threshold)
  *   deepchild <n> <kind>           forked child: chain of n, forced collection; records the outcome (F27 witness)
@@ -64,7 +71,7 @@
 #define MASK 0x5a5a5a5a5a5a5a5aULL
 
 enum { K_NONE = 0, K_P, K_M, K_R, K_B, K_A, K_L, K_T, K_E, K_H, K_W };   /* letters U / F: T / E with Ref keys; W: a Thread object */
-enum { E_R = 0, E_I, E_S, E_F };                                       /* element / key / value types: Ref, Int, String, Float */
+enum { E_R = 0, E_I, E_S, E_F, E_X };                                  /* element / key / value types: Ref, Int, String, Float, ProbeE (element / value only) */
 enum { T_NIL = 0, T_OBJ, T_MIS, T_INT, T_LO, T_HI, T_SMALL };
 typedef struct { int t; long v; } Tok;
 
@@ -129,6 +136,29 @@ static void Probe8_Del(var self) { Probe_Del(self); if (!exiting) del(NULL); }
 var Probe8 = Cello(Probe8, Instance(New, NULL, Probe8_Del));
 var ProbeM = Cello(ProbeM, Instance(New, NULL, Probe_Del), Instance(Mark, ProbeM_Mark));
 
+/* ---------------------------------------------------------------- ProbeE: an EMBEDDED element type (element of Array / List, value of Table / Tree)
+   whose destructor and whose Assign instance run a collection when the harness has armed them: the collection then runs in the middle of the
+   container operation that called destruct / assign (Array_Pop_At, List_Unlink + destruct, Table_Rem, Tree_Rem, X_Clear, X_Assign, ...).  An element
+   holds one plain pointer (no ownership: like a Ref); it has no Mark instance and is no leaf type, so GC_Recurse scans its one word. */
+struct ProbeE { var ref; };
+static long hook_count = -1;         /* >= 0: armed; the hook_count-th call (destructor or Assign of a ProbeE) from now runs hook_fn */
+static long hook_calls = 0;          /* calls seen since the harness armed / reset the counter */
+static int hook_fired = 0;
+static int hook_busy = 0;           /* inside the collection the hook runs: destructors of swept ProbeE elements are not calls of the operation */
+static int mid_busy = -1;            /* the container an operation with a collection inside is working on */
+static void (*hook_fn)(void) = NULL;
+static void probeE_call(void) {
+  if (exiting || hook_busy) return;
+  hook_calls++;
+  if (hook_count < 0) return;
+  if (hook_count == 0) { hook_count = -1; hook_fired = 1; hook_busy = 1; hook_fn(); hook_busy = 0; } else hook_count--;
+}
+var ProbeE;
+static void ProbeE_Del(var self) { probeE_call(); }
+/* the new value is in place when the collection runs (a type whose Assign copies and then allocates, e.g. logs) */
+static void ProbeE_Assign(var self, var obj) { ((struct ProbeE*)self)->ref = ((struct ProbeE*)cast(obj, ProbeE))->ref; probeE_call(); }
+var ProbeE = Cello(ProbeE, Instance(New, NULL, ProbeE_Del), Instance(Assign, ProbeE_Assign));
+
 static var probe_type(int k) { return k == 1 ? Probe1 : k == 2 ? Probe2 : k == 4 ? Probe4 : Probe8; }
 
 /* ---------------------------------------------------------------- helpers */
@@ -185,15 +215,15 @@ static int is_arr(int kind) { return kind == K_A || kind == K_L; }
 static int is_map(int kind) { return kind == K_T || kind == K_E; }
 static int refkeys(Sh* o) { return is_map(o->kind) && o->kt == E_R; }
 /* does element slot i of o hold a reference?  (an Int that equals an address, a String, a Float do not) */
-static int refvals(Sh* o) { return (is_arr(o->kind) || is_map(o->kind)) ? o->vt == E_R : 1; }
-static var ety_type(int e) { return e == E_I ? Int : e == E_S ? String : e == E_F ? Float : Ref; }
-static int parse_ety(char c) { return c == 'R' ? E_R : c == 'I' ? E_I : c == 'S' ? E_S : c == 'F' ? E_F : -1; }
+static int refvals(Sh* o) { return (is_arr(o->kind) || is_map(o->kind)) ? (o->vt == E_R || o->vt == E_X) : 1; }
+static var ety_type(int e) { return e == E_I ? Int : e == E_S ? String : e == E_F ? Float : e == E_X ? ProbeE : Ref; }
+static int parse_ety(char c) { return c == 'R' ? E_R : c == 'I' ? E_I : c == 'S' ? E_S : c == 'F' ? E_F : c == 'X' ? E_X : -1; }
 static const char* tok_text(Tok t) { static char b[32]; if (t.t == T_OBJ) snprintf(b, sizeof b, "o%ld", t.v); else snprintf(b, sizeof b, "n"); return b; }
 static const char* key_text(long k) { static char b[32]; snprintf(b, sizeof b, "k%ld", k); return b; }
 static var tok_word(Tok t);
 /* a value of element type `ety` made from a token / a key of key type `kt` (compound literals: valid in the enclosing block) */
 #define ELEM(ety, t) ((ety) == E_I ? (var)$I((int64_t)(uintptr_t)tok_word(t)) : (ety) == E_S ? (var)$S((char*)tok_text(t)) \
-                      : (ety) == E_F ? (var)$F((double)(t).v) : (var)$R(tok_word(t)))
+                      : (ety) == E_F ? (var)$F((double)(t).v) : (ety) == E_X ? (var)$(ProbeE, tok_word(t)) : (var)$R(tok_word(t)))
 #define KEY(o, k) ((o)->kt == E_I ? (var)$I(k) : (o)->kt == E_S ? (var)$S((char*)key_text(k)) : (var)$R(P(k)))
 
 /* ---------------------------------------------------------------- shadow BFS (the direct oracle's reference) */
@@ -283,6 +313,7 @@ static int elem_is(var e, int ety, Tok t) {
     case E_I: return c_int(e) == (int64_t)(uintptr_t)tok_word(t);
     case E_S: return !strcmp(c_str(e), tok_text(t));
     case E_F: return c_float(e) == (double)t.v;
+    case E_X: return ((struct ProbeE*)e)->ref == tok_word(t);
     default: return deref(e) == tok_word(t);
   }
 }
@@ -351,7 +382,7 @@ static int kind_of(const char* s, int* rootflag, int* kt, int* vt) {
 static int parse_types(int kind, const char* arg, int* kt, int* vt) {
   if (!strcmp(arg, "-")) return 1;
   if (is_arr(kind) && strlen(arg) == 1) { int v = parse_ety(arg[0]); if (v < 0) return 0; *vt = v; return 1; }
-  if (is_map(kind) && strlen(arg) == 2) { int k = parse_ety(arg[0]), v = parse_ety(arg[1]); if (k < 0 || v < 0 || k == E_F) return 0; *kt = k; *vt = v; return 1; }
+  if (is_map(kind) && strlen(arg) == 2) { int k = parse_ety(arg[0]), v = parse_ety(arg[1]); if (k < 0 || v < 0 || k == E_F || k == E_X) return 0; *kt = k; *vt = v; return 1; }
   return 0;
 }
 static int parse_where(const char* s, int* slot) {
@@ -562,6 +593,7 @@ static __attribute__((noinline)) void finish_collect(const char* tag) {
   for (int i = 0; i <= maxid; i++) if (fr[i]) sh[i].alive = 0;
   for (int i = 0; i <= maxid; i++) {
     if (!sh[i].used || !sh[i].alive) continue;
+    if (i == mid_busy) continue;      /* in the middle of an operation on it */
     if (reach[i] && !content_ok(i)) X("sig=gc-canary line=%zu what=content of reachable object %d changed by the collection", curline, i);
   }
   for (size_t i = 0; i < gc->nslots; i++) if (gc->entries[i].hash && gc->entries[i].marked) { X("sig=gc-registry line=%zu what=mark bit left set after the sweep", curline); break; }
@@ -638,6 +670,229 @@ static __attribute__((noinline)) void do_craise(long id) {
   for (size_t i = 0; i < gc->nslots; i++) if (gc->entries[i].hash && gc->entries[i].marked) left++;
   I("craise line=%zu exc=%s bits-left=%zu", curline, v_exc_name(exc), left);
   O("craise raised");
+}
+
+/* ---------------------------------------------------------------- a collection INSIDE a container operation
+   xin <k> <tok>* | <op>      exact mode.   <op> is one of  pop <id> <idx> | arem <id> <idx> | aset <id> <idx> <tok> | push <id> <tok> | ins <id> <idx> <tok> | tset <id> <key> <tok> |
+                              trem <id> <key> | clear <id> | trunc <id> <n> | assign <dst> <src> | concat <dst> <src>   on a container whose elements / values are
+                              ProbeE (for assign / concat: the source's).  The k-th call (0-based) of a ProbeE destructor or Assign instance that the operation makes
+                              runs an exact collection: TLS phase, root phase, then GC_Mark_Item on the words <tok>*, on the container itself and on the operand of
+                              the operation (what the caller's frame holds); dump; real GC_Sweep.  Prints `O x marked=.. freed=..` from inside the operation, then
+                              `O xin calls=<number of ProbeE calls the operation made> fired=<0|1>`.
+   cin <k> | <op>             full mode: the k-th call allocates unreferenced objects until the allocation threshold triggers the real GC_Mark / GC_Sweep.
+   The oracle's reference is the shadow graph AFTER the operation (plus the operand): whatever the container still holds when the operation completes must
+   survive a collection that runs while the operation is in progress.
+   Territory of known findings (a collection at that call reads freed or uninitialised memory in the unchanged tree): `O xin ub`, the operation with the
+   collection runs in a forked child whose outcome is reported, the parent runs it without a collection. */
+enum { I_NONE = 0, I_POP, I_AREM, I_ASET, I_PUSH, I_INS, I_TSET, I_TREM, I_CLEAR, I_TRUNC, I_ASSIGN, I_CONCAT };
+typedef struct { int op; long id, a, src; Tok t; int has_t; } Inner;
+
+static int inner_parse(char** w, int nw, Inner* q) {
+  memset(q, 0, sizeof *q); q->src = -1;
+  if (nw < 2) return 0;
+  long id;
+  if (!parse_long(w[1], &id) || !usable(id)) return 0;
+  q->id = id; Sh* o = &sh[id];
+  if (!(is_arr(o->kind) || is_map(o->kind)) || o->raw) return 0;
+  if (owned(id)) return 0;       /* owned by a Box: the collection inside the operation roots the container itself — outside Box's ownership contract */
+  if (!strcmp(w[0], "pop") || !strcmp(w[0], "arem")) {
+    if (nw != 3 || !is_arr(o->kind) || !parse_long(w[2], &q->a) || q->a < 0 || q->a >= o->n) return 0;
+    q->op = !strcmp(w[0], "pop") ? I_POP : I_AREM;
+    if (q->op == I_AREM) { if (o->vt != E_X) return 0; for (int j = 0; j < o->n; j++) if (o->el[j].t == o->el[q->a].t && o->el[j].v == o->el[q->a].v) { q->a = j; break; } }
+    return 1;
+  }
+  if (!strcmp(w[0], "aset")) {
+    if (nw != 4 || !is_arr(o->kind) || !parse_long(w[2], &q->a) || q->a < 0 || q->a >= o->n || !parse_tok(w[3], &q->t) || !tok_ok(q->t)) return 0;
+    if (!(q->t.t == T_OBJ || q->t.t == T_NIL)) return 0;
+    q->op = I_ASET; q->has_t = 1; return 1;
+  }
+  if (!strcmp(w[0], "ins")) {
+    /* push_at(self, x, idx): Array 0..n; List 0..n-1 (List_At(l, n) is out of bounds), or 0 on an empty List */
+    if (nw != 4 || !is_arr(o->kind) || !parse_long(w[2], &q->a) || q->a < 0 || q->a > o->n || !parse_tok(w[3], &q->t) || !tok_ok(q->t)) return 0;
+    if (!(q->t.t == T_OBJ || q->t.t == T_NIL)) return 0;
+    if (o->kind == K_L && q->a == o->n && q->a != 0) return 0;
+    q->op = I_INS; q->has_t = 1; return 1;
+  }
+  if (!strcmp(w[0], "push")) {
+    if (nw != 3 || !is_arr(o->kind) || !parse_tok(w[2], &q->t) || !tok_ok(q->t) || !(q->t.t == T_OBJ || q->t.t == T_NIL)) return 0;
+    q->op = I_PUSH; q->has_t = 1; return 1;
+  }
+  if (!strcmp(w[0], "tset")) {
+    if (nw != 4 || !is_map(o->kind) || refkeys(o) || !parse_long(w[2], &q->a) || !parse_tok(w[3], &q->t) || !tok_ok(q->t) || !(q->t.t == T_OBJ || q->t.t == T_NIL)) return 0;
+    q->op = I_TSET; q->has_t = 1; return 1;
+  }
+  if (!strcmp(w[0], "trem")) {
+    if (nw != 3 || !is_map(o->kind) || refkeys(o) || !parse_long(w[2], &q->a) || map_find(o, q->a) < 0) return 0;
+    q->op = I_TREM; return 1;
+  }
+  if (!strcmp(w[0], "clear")) { if (nw != 2) return 0; q->op = I_CLEAR; return 1; }
+  if (!strcmp(w[0], "trunc")) {
+    if (nw != 3 || !is_arr(o->kind) || !parse_long(w[2], &q->a) || q->a < 1 || q->a > o->n) return 0;
+    q->op = I_TRUNC; return 1;
+  }
+  if (!strcmp(w[0], "assign") || !strcmp(w[0], "concat")) {
+    if (nw != 3 || !parse_long(w[2], &q->src) || !usable(q->src) || q->src == id) return 0;
+    Sh* os = &sh[q->src];
+    if (os->raw || owned(q->src)) return 0;
+    if (!strcmp(w[0], "assign")) {
+      if (!((is_arr(o->kind) && is_arr(os->kind)) || (is_map(o->kind) && is_map(os->kind) && !refkeys(o) && !refkeys(os)))) return 0;
+      q->op = I_ASSIGN;
+    } else {
+      if (!(is_arr(o->kind) && is_arr(os->kind) && o->vt == os->vt)) return 0;
+      q->op = I_CONCAT;
+    }
+    return 1;
+  }
+  return 0;
+}
+/* the ProbeE calls the operation makes, in order: `nd` destructor calls, then `na` Assign calls (tset of an existing key in a Table: Assign first) */
+static void inner_calls(Inner* q, int* nd, int* na) {
+  Sh* o = &sh[q->id]; int x = o->vt == E_X; *nd = 0; *na = 0;
+  switch (q->op) {
+    case I_POP: case I_AREM: case I_TREM: *nd = x; break;
+    case I_ASET: case I_PUSH: case I_INS: *na = x; break;
+    case I_TSET: *na = x; *nd = (x && o->kind == K_T && map_find(o, q->a) >= 0); break;
+    case I_CLEAR: *nd = x ? o->n : 0; break;
+    case I_TRUNC: *nd = x ? o->n - (int)q->a : 0; break;
+    case I_ASSIGN: *nd = x ? o->n : 0; *na = sh[q->src].vt == E_X ? sh[q->src].n : 0; break;
+    case I_CONCAT: *na = sh[q->src].vt == E_X ? sh[q->src].n : 0; break;
+  }
+}
+/* 1 = the collection at call k is modelled; 0 = known-finding territory (freed / uninitialised cells are presented); -1 = the order of the source's
+   iteration is not modelled (a Table, or String keys): refused */
+static int inner_safe(Inner* q, int k) {
+  Sh* o = &sh[q->id]; int nd, na; inner_calls(q, &nd, &na);
+  if (k < 0 || k >= nd + na) return 1;
+  int chained = (o->kind == K_L || o->kind == K_E);      /* X_Clear frees cell after cell while the cells stay linked */
+  if (q->op == I_TSET) return 1;
+  if (k < nd) return (q->op == I_CLEAR || q->op == I_ASSIGN) ? (chained ? k == 0 : 1) : 1;
+  int j = k - nd;
+  if (q->op == I_ASSIGN || q->op == I_CONCAT) {
+    if (o->kind == K_A) return j == na - 1;                /* nitems counts slots that are not constructed yet */
+    if (is_map(o->kind)) return (na == 1 || (sh[q->src].kind == K_E && sh[q->src].kt == E_I)) ? 1 : -1;
+  }
+  return 1;
+}
+static void inner_shadow(Inner* q) {
+  Sh* o = &sh[q->id];
+  switch (q->op) {
+    case I_POP: case I_AREM: memmove(o->el + q->a, o->el + q->a + 1, (o->n - q->a - 1) * sizeof(Tok)); o->n--; break;
+    case I_ASET: o->el[q->a] = q->t; break;
+    case I_PUSH: sh_grow(o); o->el[o->n++] = q->t; break;
+    case I_INS: sh_grow(o); memmove(o->el + q->a + 1, o->el + q->a, (o->n - q->a) * sizeof(Tok)); o->el[q->a] = q->t; o->n++; break;
+    case I_TSET: { int i = map_find(o, q->a); if (i < 0) { sh_grow(o); i = o->n++; o->key[i] = q->a; } o->el[i] = q->t; break; }
+    case I_TREM: { int i = map_find(o, q->a); o->el[i] = o->el[o->n - 1]; o->key[i] = o->key[o->n - 1]; o->n--; break; }
+    case I_CLEAR: o->n = 0; break;
+    case I_TRUNC: o->n = (int)q->a; break;
+    case I_ASSIGN: { Sh* os = &sh[q->src]; if (is_map(o->kind)) o->kt = os->kt; o->vt = os->vt; shadow_copy_content(o, os); break; }
+    case I_CONCAT: { Sh* os = &sh[q->src]; int m = os->n; for (int i = 0; i < m; i++) { sh_grow(o); o->el[o->n++] = os->el[i]; } break; }
+  }
+}
+/* sorted Int keys of a Tree (the order of foreach over it) — used by nobody but kept for the I line */
+static __attribute__((noinline)) void inner_real(Inner* q, Tok elem_before) {
+  Sh* o = &sh[q->id]; var p = P((int)q->id);
+  switch (q->op) {
+    case I_POP: pop_at(p, $I(q->a)); break;
+    case I_AREM: rem(p, $(ProbeE, tok_word(elem_before))); break;
+    case I_ASET: set(p, $I(q->a), ELEM(o->vt, q->t)); break;
+    case I_PUSH: push(p, ELEM(o->vt, q->t)); break;
+    case I_INS: push_at(p, ELEM(o->vt, q->t), $I(q->a)); break;
+    case I_TSET: set(p, KEY(o, q->a), ELEM(o->vt, q->t)); break;
+    case I_TREM: rem(p, KEY(o, q->a)); break;
+    case I_CLEAR: resize(p, 0); break;
+    case I_TRUNC: resize(p, (size_t)q->a); break;
+    case I_ASSIGN: assign(p, P((int)q->src)); break;
+    case I_CONCAT: concat(p, P((int)q->src)); break;
+  }
+}
+
+static Tok mid_words[48]; static int mid_nw = 0;
+static __attribute__((noinline)) void finish_collect(const char* tag);
+static __attribute__((noinline)) void mark_phases(Tok* words, int nw);
+static void mid_collect_exact(void) { mark_phases(mid_words, mid_nw); finish_collect("x"); }
+static int mid_collected = 0;
+static __attribute__((noinline)) void scrub_stack(void);
+static void mid_collect_full(void) {
+  struct GC* gc = G(); size_t mit0 = gc->mitems;
+  scrub_stack();
+  for (long i = 0; i < 400000 && !mid_collected; i++) {
+    size_t nit0 = gc->nitems;
+    var g = alloc(Ref); (void)g;
+    if (gc->mitems != mit0 || gc->nitems != nit0 + 1) { n_collect_auto++; mid_collected = 1; }
+  }
+}
+/* the operation with a collection at call k, in a forked child (known-finding territory): 0 = completed, otherwise how it ended */
+static int mid_child(Inner* q, int k, Tok elem_before, void (*fn)(void)) {
+  fflush(stdout);
+  pid_t pid = fork();
+  if (pid == 0) {
+    alarm(30);
+    int devnull = open("/dev/null", 1); if (devnull >= 0) { dup2(devnull, 2); dup2(devnull, 1); }
+    var exc;
+    hook_fn = fn; hook_fired = 0; hook_calls = 0; hook_count = k; mid_collected = 0;
+    V_TRY(exc, inner_real(q, elem_before));
+    hook_count = -1;
+    exiting = 1;
+    _exit(exc ? 4 : 0);
+  }
+  int st = 0; waitpid(pid, &st, 0);
+  if (WIFEXITED(st) && WEXITSTATUS(st) == 0) return 0;
+  return WIFSIGNALED(st) ? 1000 + WTERMSIG(st) : WEXITSTATUS(st);
+}
+static const char* inner_site(Inner* q) {
+  Sh* o = &sh[q->id];
+  if (q->op == I_CLEAR) return o->kind == K_L ? "List_Clear" : "Tree_Clear_Entry";
+  if (q->op == I_CONCAT) return "Array_Concat";
+  if (o->kind == K_A) return "Array_Assign";
+  return o->kind == K_L ? "List_Assign -> List_Clear" : "Tree_Assign -> Tree_Clear_Entry";
+}
+/* `xin` / `cin` after parsing: words[0..nw) are the explicit root words (exact mode) */
+static __attribute__((noinline)) void do_mid(Inner* q, long k, Tok* words, int nw, int full) {
+  Sh* o = &sh[q->id];
+  Tok elem_before = { T_NIL, 0 };
+  if (q->op == I_AREM) elem_before = o->el[q->a];
+  int safe = inner_safe(q, (int)k);
+  int nd, na; inner_calls(q, &nd, &na);
+  if (safe == 0) {
+    int rc = mid_child(q, (int)k, elem_before, full ? mid_collect_full : mid_collect_exact);
+    int uninit = (o->kind == K_A);
+    if (rc) X("sig=%s line=%zu what=a collection that runs inside call %ld of the element %s during %s %s (%s %d)",
+              uninit ? "gc-mid-op-uninit-slots" : "gc-mid-op-freed-cells", curline, k, k < nd ? "destructors" : "Assign calls", inner_site(q),
+              uninit ? "reads element slots that nitems already counts but that are not constructed yet" : "walks cells that are already freed but still linked",
+              rc >= 1000 ? "signal" : "exit status", rc >= 1000 ? rc - 1000 : rc);
+    I("mid-ub line=%zu site=%s call=%ld outcome=%d", curline, inner_site(q), k, rc);
+    inner_shadow(q);
+    hook_count = -1; hook_calls = 0;
+    inner_real(q, elem_before);
+    if (!content_ok((int)q->id)) X("sig=gc-retype-content line=%zu what=container %ld differs from its shadow after the operation", curline, q->id);
+    if (mode_full) { checkpoint_dead(); O("cin ub live=%s", set_text(reach, 1)); } else O("xin ub");
+    return;
+  }
+  /* the shadow AFTER the operation, plus the container and the operand as root words, is what must survive */
+  inner_shadow(q);
+  mid_nw = 0;
+  for (int i = 0; i < nw; i++) mid_words[mid_nw++] = words[i];
+  Tok self = { T_OBJ, q->id }; mid_words[mid_nw++] = self;
+  if (q->has_t) mid_words[mid_nw++] = q->t;
+  if (q->src >= 0) { Tok s_ = { T_OBJ, q->src }; mid_words[mid_nw++] = s_; }
+  if (full) shadow_reach(NULL, 0, 1); else shadow_reach(mid_words, mid_nw, 0);
+  mid_busy = (int)q->id; mid_collected = 0;
+  hook_fn = full ? mid_collect_full : mid_collect_exact;
+  hook_fired = 0; hook_calls = 0; hook_count = k;
+  if (full) scrub_stack();
+  inner_real(q, elem_before);
+  hook_count = -1; mid_busy = -1;
+  pin();
+  if ((int)hook_calls != nd + na) X("sig=gc-mid-op-calls line=%zu what=the operation made %ld ProbeE destructor / Assign calls, %d expected", curline, hook_calls, nd + na);
+  if (!content_ok((int)q->id)) X("sig=gc-retype-content line=%zu what=container %ld differs from its shadow after the operation", curline, q->id);
+  if (full) {
+    if (mid_collected) oracle_survivors("collection inside a container operation");
+    checkpoint_dead();
+    O("cin calls=%ld fired=%d live=%s", hook_calls, hook_fired, set_text(reach, 1));
+    I("cin line=%zu collected=%d", curline, mid_collected);
+  } else {
+    O("xin calls=%ld fired=%d", hook_calls, hook_fired);
+  }
 }
 
 /* chain of n objects id..id+n-1 (all of one kind), each pointing to the next */
@@ -959,6 +1214,29 @@ int main(int argc, char** argv) {
       if (!(is_arr(kind) || is_map(kind)) || !parse_types(kind, w[3], &kt, &vt)) BAD;
       want_raw = 1; do_new(id, kind, 0, 0, -1, slot, kt, vt); want_raw = 0;
       O("new %ld", id);
+    } else if (!strcmp(w[0], "xin") || !strcmp(w[0], "cin")) {
+      int full = w[0][0] == 'c';
+      long k;
+      if (full != mode_full || stale_now || nw < 4 || !parse_long(w[1], &k) || k < 0 || k > 100000) BAD;
+      started = 1;
+      int bar = -1; for (int i = 2; i < nw; i++) if (!strcmp(w[i], "|")) { bar = i; break; }
+      if (bar < 0 || (full && bar != 2)) BAD;
+      Tok ws[40]; int ok = 1;
+      for (int i = 2; i < bar; i++) if (!parse_tok(w[i], &ws[i - 2]) || !tok_ok(ws[i - 2])) ok = 0;
+      if (!ok) BAD;
+      Inner q;
+      if (!inner_parse(w + bar + 1, nw - bar - 1, &q)) BAD;
+      int nd, na; inner_calls(&q, &nd, &na);
+      if (inner_safe(&q, (int)k) < 0) BAD;
+      if (full) scrub_stack();        /* the region do_mid's own frame is about to occupy: no stale pointers from the frames of earlier ops */
+      do_mid(&q, k, ws, bar - 2, full);
+    } else if (!strcmp(w[0], "arem") || !strcmp(w[0], "concat") || !strcmp(w[0], "ins")) {
+      Inner q;
+      if (!inner_parse(w, nw, &q)) BAD;
+      Tok eb = { T_NIL, 0 }; if (q.op == I_AREM) eb = sh[q.id].el[q.a];
+      inner_shadow(&q); inner_real(&q, eb);
+      if (!content_ok((int)q.id)) X("sig=gc-retype-content line=%zu what=container %ld differs from its shadow after %s", curline, q.id, w[0]);
+      O("ok");
     } else if (!strcmp(w[0], "collect")) {
       if (!mode_full || nw != 1) BAD;
       do_collect();
